@@ -496,6 +496,46 @@ func genC14RouterConc(rng *Rng, sc *Scenario) {
 	sc.Schedule, _ = GenSchedule(rng, n, 30*total)
 }
 
+// genC14RouterConcTail: the concurrent router worlds, half of them with a cache that does evict
+// (capacity 1 or 2) and a tail of repeated requests on client 0. Requests that start after every
+// other client has finished are judged by the sequential rules (most recent key, immediate repeat
+// served from the cache): what a concurrent phase leaves behind must not outlive it.
+//
+// Half of the runs enable the statement sites of one or two files only (the cache, the matcher and
+// dispatch weighted up): with a tenth of the steps, a window of two adjacent statements is hit
+// correspondingly more often.
+func genC14RouterConcTail(rng *Rng, sc *Scenario) {
+	preempt(genC14RouterConc)(rng, sc)
+	r := NewRng(sc.Seed, uint64(sc.Run), 0x7461696c)
+	if r.Chance(1, 2) {
+		var sites []string
+		for _, s := range sc.Sites {
+			if !strings.HasPrefix(s, "p.") {
+				sites = append(sites, s)
+			}
+		}
+		hot := []string{"p.route_cache", "p.route_cache", "p.route_cache", "p.parse_match", "p.parse_match", "p.parse_match", "p.dispatch", "p.dispatch", "p.context", "p.router", "p.route"}
+		sites = append(sites, hot[r.Intn(len(hot))])
+		if r.Chance(1, 3) {
+			sites = append(sites, hot[r.Intn(len(hot))])
+		}
+		sc.Sites = sites
+	}
+	if r.Chance(1, 2) {
+		sc.Options.Capacity = []int{1, 1, 1, 2}[r.Intn(4)]
+	}
+	var all []Req
+	for _, cl := range sc.Clients {
+		for i := 0; i < len(cl.Reqs); i += 2 {
+			all = append(all, cl.Reqs[i])
+		}
+	}
+	for i, k := 0, r.Range(2, 4); i < k && len(all) > 0; i++ {
+		rq := all[r.Intn(len(all))]
+		sc.Clients[0].Reqs = append(sc.Clients[0].Reqs, rq, rq)
+	}
+}
+
 func checkC14Router(sc *Scenario) *CheckOut {
 	out := &CheckOut{Faults: map[string]int64{}}
 	res := RunConcurrent(sc)
@@ -520,9 +560,23 @@ func checkC14Router(sc *Scenario) *CheckOut {
 		out.Viol = append(out.Viol, Violation{"C14", class, fmt.Sprintf("client %d request %d (%s %s), cache capacity %d: ", rec.Task, rec.Idx, rec.Method, rec.Path, sc.Options.Capacity) + fmt.Sprintf(format, a...), ""})
 	}
 	concurrent := len(res.Recs) > 1
-	for _, recs := range res.Recs {
+	endOf := make([]int64, len(res.Recs)) // when each client's last request returned
+	for t, recs := range res.Recs {
+		for _, rec := range recs {
+			if rec.EndSeq > endOf[t] {
+				endOf[t] = rec.EndSeq
+			}
+		}
+	}
+	for t, recs := range res.Recs {
 		out.Requests += len(recs)
-		c14RouterClient(sc, recs, nocache, concurrent, out, fail)
+		var othersEnd int64
+		for u, e := range endOf {
+			if u != t && e > othersEnd {
+				othersEnd = e
+			}
+		}
+		c14RouterClient(sc, recs, nocache, concurrent, othersEnd, out, fail)
 		if len(out.Viol) > 0 {
 			break
 		}
@@ -530,8 +584,11 @@ func checkC14Router(sc *Scenario) *CheckOut {
 	return out
 }
 
-func c14RouterClient(sc *Scenario, recs []*ReqRec, nocache *World, concurrent bool, out *CheckOut, fail func(*ReqRec, string, string, ...any)) {
+func c14RouterClient(sc *Scenario, recs []*ReqRec, nocache *World, concurrent bool, othersEnd int64, out *CheckOut, fail func(*ReqRec, string, string, ...any)) {
+	evicts := sc.Options.Capacity < 1000 // (the concurrent generators use 1000 for "never evicts")
 	for i, rec := range recs {
+		// a request that started after every other client had finished is alone: the sequential rules apply
+		concurrent := concurrent && rec.StartSeq < othersEnd
 		route, _, _ := nocache.R.QuickMatch(rec.Method, nocache.EffPath(rec.Path))
 		if route == nil || !strings.ContainsAny(route.Path(), "{[") {
 			continue
@@ -548,9 +605,12 @@ func c14RouterClient(sc *Scenario, recs []*ReqRec, nocache *World, concurrent bo
 			present = present || k == want || k == alt
 		}
 		// with other requests in flight (and a cache that never evicts) the entry must be present, though not necessarily most recent
-		if (concurrent && !present) || (!concurrent && (rec.CacheKeys == "" || (keys[0] != want && keys[0] != alt))) {
+		if (concurrent && !evicts && !present) || (!concurrent && (rec.CacheKeys == "" || (keys[0] != want && keys[0] != alt))) {
 			fail(rec, "router-key", "resolved to the dynamic route %s, but afterwards the most recent cache key is not %q; keys from most to least recent: [%s]", route.Path(), want, strings.ReplaceAll(rec.CacheKeys, "\x00", " | "))
 			break
+		}
+		if concurrent && evicts {
+			continue // another client may evict the entry between the request and its repeat
 		}
 		if i+1 < len(recs) && recs[i+1].Method == rec.Method && recs[i+1].Path == rec.Path {
 			nx := recs[i+1]
@@ -628,7 +688,7 @@ func init() {
 		Rule: "as lru-concurrent, executed under the race detector"})
 	register(&Profile{Prop: "C14", Name: "lru-concurrent-pre", Pre: true, Quick: 30000, Thorough: 120000, Gen: preempt(genC14Ops(true)), Check: checkC14Ops,
 		Rule: "as lru-concurrent; a task can be preempted before every statement of the cache (instrumented copy of rux)"})
-	register(&Profile{Prop: "C14", Name: "router-concurrent-pre", Pre: true, Quick: 2000, Thorough: 40000, Gen: preempt(genC14RouterConc), Check: checkC14Router,
+	register(&Profile{Prop: "C14", Name: "router-concurrent-pre", Pre: true, Quick: 3000, Thorough: 40000, Gen: genC14RouterConcTail, Check: checkC14Router,
 		Rule: "as router-concurrent; a task can be preempted before every statement of rux (instrumented copy)"})
 	register(&Profile{Prop: "C14", Name: "router", Quick: 24000, Thorough: 400000, Gen: genC14Router, Check: checkC14Router,
 		Rule: "a history is non-trivial when at least one request resolved to a dynamic route on the caching router"})
